@@ -145,6 +145,18 @@ FAMILIES["probe"] = {
                     "random peer selection (kRandomNodes) enters through what the transport observed"],
 }
 
+FAMILIES["life"] = {
+    "name": "life", "props": ["C20"], "models": "Lifecycle.v, Core.v",
+    "harness": COMMON + ["zz_vf_wire_test.go", "zz_vf_life_test.go"], "test": "TestVfLife",
+    "n": {"quick": 600, "thorough": 10000},
+    "codes": [(500, 509, ["C20"])],
+    "code_names": {1: "undecodable case", 70: "panic outcome differs from the lifecycle model",
+                   500: "C20: a public call panicked", 501: "C20: Leave / UpdateNode / another call blocked past its timeout",
+                   502: "C20: the network was used after Shutdown had returned", 503: "C20: background activity continued after Shutdown"},
+    "assumptions": ["data races, deadlocks and goroutine termination are runtime behaviours: observed (bubble exit, -race stress in the thorough tier), not proved",
+                    "the real-socket half of 'nothing reaches the network after Shutdown' uses loopback sockets outside the virtual-time bubble"],
+}
+
 # a property may be served by several families (run in order); the first is its primary one
 PROPS = {}
 for f, d in sorted(FAMILIES.items(), key=lambda kv: 0 if kv[0] in ("susp", "queue", "wire", "stream") else 1):
